@@ -103,6 +103,13 @@ func Apply(dt interface{}, o Op) (ret interface{}, err error) {
 			vs[i] = alias(v)
 		}
 		o.Vals = vs
+		// the slice itself is what a variadic call hands over (f(pos, vs...) passes vs, not a
+		// copy): a caller may reuse it for its next call, so it is overwritten as well
+		pokes = append(pokes, func() {
+			for i := range vs {
+				vs[i] = "scribbled-slot"
+			}
+		})
 	}
 	defer func() {
 		for _, f := range pokes {
